@@ -96,6 +96,9 @@ def run(pid, tier, seed, replay=None):
     if pid == "C15":
         import p15
         return p15.run(tier, seed, replay)
+    if pid == "C16":
+        import p16
+        return p16.run(tier, seed, replay)
     if pid in PLAN:
         return run_generic(pid, tier, seed, replay)
     print("unknown property", pid)
